@@ -448,6 +448,18 @@ def rule_cachekey(ctx: Ctx, rule: str = "C07.cachekey"):
             continue
         n += 1
         v = expand(p.value, p.events)
+        is_partial = any(b.x["taken"] is True and xshow(b.term, p.events).replace(" ", "") in (f"isinstance({param},partial)", f"isinstance({param},functools.partial)")
+                         for b in p.of("branch"))
+        if is_partial:
+            # a partial's signature depends on its function *and* on what it already binds
+            txt = show(v)
+            rec = f"_make_key({param}.func)" in txt
+            rep.check((rec or f"{param}.func" in txt) and f"{param}.args" in txt and f"{param}.keywords" in txt, rule, mk.loc(),
+                      "the memo key of a functools.partial identifies its function and what it binds (number of positional arguments, names of "
+                      "keyword arguments): two partials of one function with different bindings have different signatures", mk.key,
+                      f"return {txt}")
+            if rec:
+                continue
         elems: List[ast.AST] = []
         inner = v
         if isinstance(inner, ast.Call) and show(inner.func) == "hash" and inner.args:
